@@ -531,6 +531,87 @@ def scenario_skip_queue(ctx, shape, pr, natoms, monitors_of, no_octopus=False,
     return repo, host, out
 
 
+def run_add_to_queue(repo, host, shape, pr, no_octopus=True):
+    """The real add_to_queue as the handler calls it (cascade + w branches built)."""
+    from bert_e.workflow.gitwaterflow import branches as B, queueing as Q
+    from bert_e.workflow.git_utils import clone_git_repo
+    from bert_e.job import PullRequestJob
+    from bert_e import exceptions as ex
+    from bert_e.lib import git as G
+    berte = make_berte(repo, host, no_octopus=no_octopus)
+    job = PullRequestJob(bert_e=berte, pull_request=host.get_pull_request(pr.id))
+    clone_git_repo(job)
+    job.git.cascade = B.BranchCascade()
+    job.git.src_branch = B.branch_factory(repo, pr.src)
+    job.git.dst_branch = B.branch_factory(repo, pr.dst)
+    B.build_branch_cascade(job)
+    ts = targets(shape, pr.dst)
+    dsts = job.git.cascade.dst_branches
+    wbs = []
+    for k, t in enumerate(dsts):
+        w = B.GhostIntegrationBranch(repo, pr.src, dsts[0]) if k == 0 else \
+            B.branch_factory(repo, w_name(pr, ts[k]))
+        w.dst_branch = t
+        wbs.append(w)
+    try:
+        Q.add_to_queue(job, wbs)
+        return 'queued'
+    except ex.QueueConflict:
+        return 'conflict'
+    except G.PushFailedException:
+        return 'pushfail'
+
+
+def scenario_queue_then_merge(ctx, shape, pr, natoms, no_octopus=True, nfresh=8, qrefs=True):
+    """C02(c): the real add_to_queue with at most ONE ref refused by the server
+    (the job then dies), followed by a fresh job evaluating the queues
+    (handle_merge_queues) on whatever state the remote was left in."""
+    ts = targets(shape, pr.dst)
+    refs = direct_refs(shape, pr) + (['q/' + version_of(d) for d in shape] if qrefs else [])
+    repo = SymRepo(ctx, refs, natoms, nfresh)
+    repo.reject_refs = 'all'
+    repo.log_cut = True
+    ctx.assume(symgit.status_domain(repo, natoms + nfresh))
+    assume_inclusion(ctx, repo, shape)
+    # what the handler established before queueing: the integration branches are
+    # in sync (each contains the previous one and its destination), the queue is
+    # empty (q/<v> == destination), the change is on none of its targets yet
+    prev = repo.cl(repo.remote[pr.src])
+    for k, t in enumerate(ts):
+        w = repo.cl(repo.remote[pr.src if k == 0 else w_name(pr, t)])
+        ctx.assume(repo.subset_t(prev, w))
+        ctx.assume(repo.subset_t(repo.cl(repo.remote[t]), w))
+        ctx.assume(z3.Not(repo.subset_t(repo.cl(repo.remote[pr.src]), repo.cl(repo.remote[t]))))
+        prev = w
+    if qrefs:
+        for d in shape:
+            ctx.assume(repo.remote['q/' + version_of(d)] == repo.remote[d])
+    host = Host(repo, [pr], ctx)
+    out1 = run_add_to_queue(repo, host, shape, pr, no_octopus)
+    # "every single ref that the remote may reject": at most one refusal
+    flags = list(repo.rejected.values())
+    if len(flags) > 1:
+        ctx.assume(z3.AtMost(*flags, 1))
+    # a fresh job: new clone of the remote
+    repo.tip = dict(repo.remote)
+    repo.tracking = dict(repo.remote)
+    repo.head = None
+    repo.reject_refs = None
+    src0 = repo.pre_remote[pr.src]
+
+    def mon(r, op):
+        if op['kind'] != 'update' or op['ref'] not in shape:
+            return []
+        ins = [r.subset_t(r.cl(src0), r.cl(r.remote[t])) for t in ts if t in r.remote]
+        if len(ins) < 2:
+            return []
+        return [('C02 PR %d on some but not all of its targets' % pr.id,
+                 z3.Or(z3.And(*ins), z3.Not(z3.Or(*ins))))]
+    repo.monitors = [mon, mon_inclusion(shape)]
+    out2 = run_merge_queues(repo, host, False)
+    return repo, host, out1, out2
+
+
 # -- counterexamples: concretise, replay on a real repository ----------------------------------
 def cex_data(scenario, shape, prs, v, **params):
     return dict(scenario=scenario, shape=list(shape),
@@ -644,6 +725,12 @@ def replay_on_real_git(data, crash_after_pushes=None, interference=None):
                     out = run_skip_queue(repo, host, shape, prs[0],
                                          data['params'].get('no_octopus', False),
                                          bool(data['params'].get('bypass', False)))
+                elif data['scenario'] == 'queue_then_merge':
+                    host.default = 'SUCCESSFUL'      # builds of the new queue commits went green
+                    run_add_to_queue(repo, host, shape, prs[0], data['params'].get('no_octopus', True))
+                    world.set_reject([])
+                    repo.reset()
+                    out = run_merge_queues(repo, host, False)
                 elif data['scenario'] == 'direct_merge':
                     out = run_direct_merge(repo, shape, prs[0],
                                            data['params'].get('no_octopus', False))
@@ -659,6 +746,8 @@ def replay_on_real_git(data, crash_after_pushes=None, interference=None):
                 pass
         bad, heads = real_observe(world, shape, prs, pre_heads, host.status,
                                   'Q' if data['scenario'] == 'merge_queues' else 'D')
+        if data['scenario'] == 'queue_then_merge':
+            bad = [b for b in bad if not b.startswith('C03')]
         return bad, out
     finally:
         world.cleanup()
